@@ -139,12 +139,53 @@ func HC13_Determinism() {
 	// registered filters (their table lists are maintained through map lookups)
 	m1, m2 := All(x1.id[uA]), All(x2.id[uA])
 	c1, c2 := x1.w.Cache().Register(&m1), x2.w.Cache().Register(&m2)
-	pf := [6]int{3, 8, 1, 5, 7, 9}[vChoice("prefix", 3+3*vTier())]
-	x1.prefix(pf)
-	x2.prefix(pf)
-	steps := 1 + vTier()
-	for s := 0; s < steps; s++ {
-		twinStep(x1, x2, vChoice("op", 10))
+	switch vChoice("scenario", 3) {
+	case 0:
+		pf := [6]int{3, 8, 1, 5, 7, 9}[vChoice("prefix", 3+3*vTier())]
+		x1.prefix(pf)
+		x2.prefix(pf)
+		steps := 1 + vTier()
+		for s := 0; s < steps; s++ {
+			twinStep(x1, x2, vChoice("op", 10))
+		}
+	case 1: // a target with empty tables in several nodes dies while a registered filter lists them
+		A, B, R1, R2 := uint8(1<<uA), uint8(1<<uB), uint8(1<<uR1), uint8(1<<uR2)
+		for _, x := range [2]*hW{x1, x2} {
+			x.opNewEntity(0)
+			x.opBuilderNew(A|R1, uR1, true, x.h[0], false)
+			x.opBuilderNew(A|B|R1, uR1, true, x.h[0], false)
+			x.opBuilderNew(A|R2, uR2, true, x.h[0], false)
+			x.opRemoveEntity(1)
+			x.opRemoveEntity(2)
+			x.opRemoveEntity(3)
+			x.opNewEntityWith(A | 1<<uC) // tables listed after the relation tables
+			x.opNewEntityWith(A | 1<<uZ)
+			x.opNewEntityWith(A | B | 1<<uC)
+			x.opRemoveEntity(0) // the target dies: its empty tables are retired
+		}
+	default: // several targets die in one batch call, their table slots are re-used afterwards
+		A, R1 := uint8(1<<uA), uint8(1<<uR1)
+		nt := 2 + vChoice("targets", 2)
+		for _, x := range [2]*hW{x1, x2} {
+			for k := 0; k < nt; k++ {
+				x.opNewEntity(0)
+			}
+			for k := 0; k < nt; k++ {
+				x.opBuilderNew(A|R1, uR1, true, x.h[k], false)
+			}
+			for k := 0; k < nt; k++ {
+				x.opRemoveEntity(nt + k)
+			}
+			b := x.mkFilter(fAll, Entity{})
+			x.opRemoveEntities(b.f, fAll, Entity{}) // removes all targets in one call
+			x.opReset()                               // model capacity: start counting handles again
+			for k := 0; k < nt; k++ {
+				x.opNewEntity(0)
+			}
+			for k := 0; k < nt; k++ {
+				x.opBuilderNew(A|R1, uR1, true, x.h[k], true)
+			}
+		}
 	}
 	for i := 0; i < x1.n; i++ {
 		vAssert(x1.h[i] == x2.h[i], "nondeterminism: two identical histories issue different handles")
